@@ -53,11 +53,35 @@
 (*                 the process and the old identity was still served at    *)
 (*                 the deadline.                                           *)
 (*                                                                         *)
+(*  op = "rotate"  (step / rstep) the harness overwrote the server's client *)
+(*                 CA bundle IN PLACE with the next generation of the CA    *)
+(*                 (TlsAuth!Rotate); nothing is reloaded.  A connect line   *)
+(*                 carries `cc`: the client certificate presented ("none",  *)
+(*                 "otherCA", "trustedCA" = generation 0, "gen<g>"), and is *)
+(*                 judged by the decision table for the CA generation in    *)
+(*                 force (HandshakeOutcome): the one that was at the path   *)
+(*                 at the last reload - a client of a retired generation is *)
+(*                 refused, one of the generation configured at the reload  *)
+(*                 is admitted, and a rotation without reload changes       *)
+(*                 nothing.  The probe handshake of a real-server reload    *)
+(*                 line presents the certificate of the generation at the   *)
+(*                 path and must be admitted.                               *)
+(*  op = "botch"   (rstep) a reload request that FAILS: the harness made    *)
+(*                 the key file unusable and raised SIGUSR1                 *)
+(*                 (TlsAuth!BotchedReload): nothing changes - later         *)
+(*                 handshakes see the identity installed last, and the next *)
+(*                 reload takes effect like any other.                      *)
+(*  ev = "cscript" / "cstep"   the client-side machine (c): one client      *)
+(*                 process, its roots file replaced in place (op "rotate"), *)
+(*                 connections (op "connect") to a server whose certificate *)
+(*                 was issued by `srv`; each must be validated against the  *)
+(*                 roots the file holds when the connection is made.        *)
+(*                                                                         *)
 (* Acceptance: POSTCONDITION Accepted (as in SocksTrace.tla / MuxTrace).   *)
 (* With Collect = TRUE unmatched lines are recorded (with a signature) and *)
 (* the walk goes on, the machine following the specification.              *)
 (***************************************************************************)
-EXTENDS TlsAuth, Integers, Json, IOUtils, TLC
+EXTENDS TlsAuth, Integers, Json, IOUtils
 
 CONSTANT Collect
 
@@ -130,21 +154,57 @@ RoundTrips(r) ==
 
 ShowsIdentity(r, v) == r.seen_cn = IdentCN(v) /\ r.seen_serial = IdentSerial(v) /\ r.seen_issuer = "trusted-ca"
 
-StepOps == {"connect", "reload", "use"}
+StepOps == {"connect", "reload", "rotate", "use"}
+RStepOps == StepOps \cup {"botch"}
+
+\* the subject the harness gives the client certificate `cc`, and the CA certificate of `x`
+ClientCN(cc) == "cli-" \o cc
+CaCN(x) == IF x = "otherCA" THEN "other-ca" ELSE IF x = "trustedCA" THEN "trusted-ca" ELSE "trusted-ca-" \o x
+
+\* The server's judgement of a client presenting cc, observed as outcome class o, against what the configuration read
+\* at the last reload demands: "" = as configured, else the signature of the deviation.
+JudgeSig(o, cc) ==
+  LET k == HandshakeCellG(cc, wantCA, dueGen)
+      isgen == IsGen(cc, wantGen)
+      g == IF isgen THEN GenOf(cc, wantGen) ELSE 0
+  IN IF o = "ok" /\ ~ServerAccepts(k)
+     THEN (IF isgen /\ g < dueGen THEN "reload_keeps_retired_client_ca"
+           ELSE IF isgen /\ g > dueGen THEN "ca_rotation_effective_before_reload"
+           ELSE IF identityVersion > 0 THEN "reload_drops_client_auth"
+           ELSE "server_accepts_unauthenticated_client")
+     ELSE IF o = "serverRejects" /\ ServerAccepts(k)
+     THEN (IF dueGen > 0 THEN "reload_rejects_new_client_ca"
+           ELSE IF wantGen > dueGen THEN "ca_rotation_effective_before_reload"
+           ELSE IF identityVersion > 0 THEN "handshake_fails_after_reload"
+           ELSE IF ServerAsksForCert(k) THEN "server_rejects_valid_client_cert"
+           ELSE "server_demands_client_cert_without_ca")
+     ELSE ""
+
+MatchRotate(r) ==
+  /\ wantCA = "configured"
+  /\ r.res = "ok"
+  /\ r.to = wantGen + 1
 
 MatchStep(r) ==
   CASE r.op = "connect" ->
-         \* the handshake succeeds, reaches the server, and is served with the identity installed last
-         /\ r.conn = Len(conns) + 1
-         /\ r.client_hs = "ok" /\ r.server_hs = "ok"
-         /\ RoundTrips(r)
-         /\ ShowsIdentity(r, live)
-         /\ live = identityVersion
-         /\ r.mtls = (wantCA = "configured") /\ ConfigKept
-         /\ r.srv_saw_client_cert = r.mtls
+         \* the handshake is judged by the CA generation in force and, when it reaches the server, is served with the
+         \* identity installed last (a script without rotation presents RightCert: always admitted)
+         /\ r.cc \in Presentable
+         /\ r.mtls = (wantCA = "configured") /\ ConfigKept /\ CAFollows
+         /\ LET o == Obs(r)
+            IN /\ o \in HandshakeOutcome(r.cc)
+               /\ r.conn = (IF Admitted(r.cc) THEN Len(conns) + 1 ELSE 0)
+               /\ o = "ok" => r.client_hs = "ok" /\ r.server_hs = "ok" /\ RoundTrips(r)
+               /\ o # "ok" => r.srv_data = "" /\ r.cli_data = ""
+               /\ r.client_hs = "ok" => ShowsIdentity(r, live)
+               /\ live = identityVersion
+               /\ o = "ok" => r.srv_saw_client_cert = r.mtls
+               /\ ~r.mtls => ~r.srv_saw_client_cert
+               /\ (o = "ok" /\ r.mtls) => r.srv_saw_client_cn = ClientCN(r.cc)
     [] r.op = "reload" ->
          /\ r.res = "ok"
          /\ r.to = identityVersion + 1
+    [] r.op = "rotate" -> MatchRotate(r)
     [] r.op = "use" ->
          \* an established connection is not disturbed by the reloads since and keeps its identity
          /\ r.conn \in DOMAIN conns
@@ -157,13 +217,22 @@ MatchStep(r) ==
 SigStep(r) ==
   IF r.op \notin StepOps THEN (IF r.op = "panic" THEN "panic:script" ELSE "other:malformed_line")
   ELSE IF r.op = "reload" THEN (IF r.res = "panic" THEN "panic:reload" ELSE "reload_failed")
+  ELSE IF r.op = "rotate" THEN "other:malformed_line"
   ELSE IF "panic" \in {r.client_hs, r.server_hs, r.client_rt, r.server_rt} THEN "panic:" \o r.op
   ELSE IF r.op = "connect"
-  THEN IF ~(r.client_hs = "ok" /\ r.server_hs = "ok" /\ RoundTrips(r)) THEN "handshake_fails_after_reload"
-       ELSE IF ~ShowsIdentity(r, live) THEN "new_handshake_sees_stale_identity"
-       ELSE IF r.mtls /\ ~r.srv_saw_client_cert THEN "server_did_not_authenticate_client"
-       ELSE IF ~r.mtls /\ r.srv_saw_client_cert THEN "server_asks_client_cert_without_ca"
-       ELSE "other:connect"
+  THEN IF r.cc \notin Presentable \/ r.mtls # (wantCA = "configured") THEN "other:malformed_line"
+       ELSE LET o == Obs(r)
+                j == JudgeSig(o, r.cc)
+            IN IF j # "" THEN j
+               ELSE IF o = "clientRejects" THEN "client_rejects_valid_server_cert"
+               ELSE IF o = "undetermined" \/ (o = "ok" /\ ~(r.client_hs = "ok" /\ r.server_hs = "ok" /\ RoundTrips(r)))
+               THEN "handshake_fails_after_reload"
+               ELSE IF r.client_hs = "ok" /\ ~ShowsIdentity(r, live) THEN "new_handshake_sees_stale_identity"
+               ELSE IF o # "ok" /\ (r.srv_data # "" \/ r.cli_data # "") THEN "data_delivered_despite_rejection"
+               ELSE IF o = "ok" /\ r.mtls /\ ~r.srv_saw_client_cert THEN "server_did_not_authenticate_client"
+               ELSE IF ~r.mtls /\ r.srv_saw_client_cert THEN "server_asks_client_cert_without_ca"
+               ELSE IF o = "ok" /\ r.mtls /\ r.srv_saw_client_cn # ClientCN(r.cc) THEN "server_saw_another_client_cert"
+               ELSE "other:connect"
   ELSE IF r.conn \notin DOMAIN conns THEN "other:malformed_line"
   ELSE IF r.client_hs = "gone" THEN "other:use_of_failed_connection"
   ELSE IF ~RoundTrips(r) THEN "reload_disturbs_established_connection"
@@ -185,10 +254,11 @@ RObs(r) ==
 
 MatchRStep(r) ==
   CASE r.op = "connect" ->
-         /\ r.cc \in ClientCerts
+         /\ r.cc \in Presentable
          /\ r.mtls = (wantCA = "configured")
-         \* authenticated exactly as configured, whatever number of reloads happened
-         /\ ConfigKept
+         \* authenticated exactly as configured, whatever number of reloads happened, against the CA bundle that was at
+         \* the configured path at the last reload
+         /\ ConfigKept /\ CAFollows
          /\ LET o == RObs(r)
             IN /\ o \in HandshakeOutcome(r.cc)
                /\ r.conn = (IF Admitted(r.cc) THEN Len(conns) + 1 ELSE 0)
@@ -198,10 +268,18 @@ MatchRStep(r) ==
                /\ r.client_hs = "ok" => ShowsIdentity(r, live)
                /\ live = identityVersion
     [] r.op = "reload" ->
-         \* the harness saw a handshake served with the new identity after SIGUSR1
+         \* the harness saw a handshake served with the new identity after SIGUSR1; that handshake presented the
+         \* certificate of the CA generation at the configured path (none without mutual TLS) and was admitted
          /\ r.res = "ok"
          /\ r.to = identityVersion + 1
          /\ r.seen_serial = IdentSerial(identityVersion + 1)
+         /\ r.cc = (IF wantCA = "configured" THEN GenName(wantGen) ELSE "none")
+         /\ RReached(r) /\ r.client_rt = "ok"
+    [] r.op = "rotate" -> MatchRotate(r)
+    [] r.op = "botch" ->
+         \* the harness made the key file unusable and its SIGUSR1 was delivered
+         /\ r.res = "signalled"
+         /\ r.n = botched + 1
     [] r.op = "use" ->
          /\ r.conn \in DOMAIN conns
          /\ RReached(r) /\ r.client_rt = "ok"
@@ -211,22 +289,21 @@ MatchRStep(r) ==
     [] OTHER -> FALSE
 
 SigRStep(r) ==
-  IF r.op \notin StepOps THEN (IF r.op = "panic" THEN "panic:script" ELSE "other:malformed_line")
+  IF r.op \notin RStepOps THEN (IF r.op = "panic" THEN "panic:script" ELSE "other:malformed_line")
   ELSE IF r.op = "reload"
   THEN (IF r.res = "panic" THEN "panic:reload"
-        ELSE IF r.res = "stale" THEN "reload_not_effective"
-        ELSE "reload_failed")
+        ELSE IF r.res = "stale" THEN (IF botched > 0 THEN "reload_dead_after_failed_reload" ELSE "reload_not_effective")
+        ELSE IF r.res # "ok" \/ r.to # identityVersion + 1 \/ r.seen_serial # IdentSerial(identityVersion + 1) THEN "reload_failed"
+        ELSE IF r.cc # (IF wantCA = "configured" THEN GenName(wantGen) ELSE "none") THEN "other:malformed_line"
+        ELSE IF wantGen > 0 THEN "reload_rejects_new_client_ca"
+        ELSE "handshake_fails_after_reload")
+  ELSE IF r.op \in {"rotate", "botch"} THEN "other:malformed_line"
   ELSE IF "panic" \in {r.client_hs, r.client_rt} THEN "panic:" \o r.op
   ELSE IF r.op = "connect"
-  THEN IF r.cc \notin ClientCerts \/ r.mtls # (wantCA = "configured") THEN "other:malformed_line"
-       ELSE LET k == HandshakeCell(r.cc, wantCA)
-                o == RObs(r)
-            IN IF o = "ok" /\ ~ServerAccepts(k)
-               THEN (IF identityVersion > 0 THEN "reload_drops_client_auth" ELSE "server_accepts_unauthenticated_client")
-               ELSE IF o = "serverRejects" /\ ServerAccepts(k)
-               THEN (IF identityVersion > 0 THEN "handshake_fails_after_reload"
-                     ELSE IF ServerAsksForCert(k) THEN "server_rejects_valid_client_cert"
-                     ELSE "server_demands_client_cert_without_ca")
+  THEN IF r.cc \notin Presentable \/ r.mtls # (wantCA = "configured") THEN "other:malformed_line"
+       ELSE LET o == RObs(r)
+                j == JudgeSig(o, r.cc)
+            IN IF j # "" THEN j
                ELSE IF o = "clientRejects" THEN "client_rejects_valid_server_cert"
                ELSE IF o = "undetermined" THEN "other:undetermined_failure"
                ELSE IF r.client_hs = "ok" /\ ~ShowsIdentity(r, live) THEN "new_handshake_sees_stale_identity"
@@ -238,25 +315,72 @@ SigRStep(r) ==
        ELSE IF ~ShowsIdentity(r, Sees(r.conn)) THEN "established_connection_changes_identity"
        ELSE "other:use"
 
+(* ------------------------------ client-side lines ------------------------------ *)
+CStepOps == {"connect", "rotate"}
+
+MatchCStep(r) ==
+  CASE r.op = "connect" ->
+         /\ r.srv \in CPresentable
+         /\ r.roots = rootsGen
+         /\ LET o == Obs(r)
+            IN \* validated against the roots the file holds NOW
+               /\ o \in CConnectOutcome(r.srv)
+               /\ o = "ok" => r.client_hs = "ok" /\ r.server_hs = "ok" /\ RoundTrips(r)
+               /\ o # "ok" => r.srv_data = "" /\ r.cli_data = ""
+               /\ r.client_hs = "ok" => r.seen_cn = "srv-" \o r.srv \o "-match" /\ r.seen_issuer = CaCN(r.srv)
+               /\ ~r.srv_saw_client_cert
+    [] r.op = "rotate" ->
+         /\ r.res = "ok"
+         /\ r.to = rootsGen + 1
+    [] OTHER -> FALSE
+
+SigCStep(r) ==
+  IF r.op \notin CStepOps THEN (IF r.op = "panic" THEN "panic:script" ELSE "other:malformed_line")
+  ELSE IF r.op = "rotate" THEN "other:malformed_line"
+  ELSE IF "panic" \in {r.client_hs, r.server_hs, r.client_rt, r.server_rt} THEN "panic:" \o r.op
+  ELSE IF r.srv \notin CPresentable \/ r.roots # rootsGen THEN "other:malformed_line"
+  ELSE LET k == ClientCell(r.srv, rootsGen)
+           o == Obs(r)
+       IN IF o = "ok" /\ ~ClientAccepts(k)
+          THEN (IF IsGen(r.srv, rootsGen) /\ GenOf(r.srv, rootsGen) < rootsGen THEN "client_uses_stale_roots"
+                ELSE "client_accepts_invalid_server_cert")
+          ELSE IF o = "clientRejects" /\ ClientAccepts(k)
+          THEN (IF rootsGen > 0 THEN "client_ignores_replaced_roots" ELSE "client_rejects_valid_server_cert")
+          ELSE IF o = "serverRejects" THEN "server_demands_client_cert_without_ca"
+          ELSE IF o = "undetermined" THEN "other:undetermined_failure"
+          ELSE IF o # "ok" /\ (r.srv_data # "" \/ r.cli_data # "") THEN "data_delivered_despite_rejection"
+          ELSE IF r.client_hs = "ok" /\ ~(r.seen_cn = "srv-" \o r.srv \o "-match" /\ r.seen_issuer = CaCN(r.srv))
+          THEN "wrong_server_cert_presented"
+          ELSE IF r.srv_saw_client_cert THEN "server_asks_client_cert_without_ca"
+          ELSE "other:cconnect"
+
 \* The machine follows the specification whatever was observed, with one exception: a handshake that was
 \* served with an identity other than `live` (an unmatched line, recorded above) pins the connection to the
 \* identity it actually saw, so that later uses of it are judged by "keeps seeing the identity it handshook
 \* with" and one defect does not cascade into a second signature.
 ObsVer(r) == IF r.seen_serial - 100 \in 0 .. identityVersion THEN r.seen_serial - 100 ELSE live
+Pinned(r) ==
+  /\ conns' = Append(conns, [born |-> identityVersion, ver |-> ObsVer(r), cfg |-> ObsVer(r), alive |-> TRUE, cc |-> r.cc,
+                             gen |-> dueGen])
+  /\ UNCHANGED <<identityVersion, live, wantCA, liveCA, wantGen, liveGen, dueGen, botched>>
+  /\ UNCHANGED cvars
 Advance(r) ==
   CASE r.ev \in {"script", "rscript"} ->
          /\ identityVersion' = 0 /\ live' = 0 /\ conns' = <<>>
          /\ wantCA' = CAOf(r.mtls) /\ liveCA' = CAOf(r.mtls)
-    [] r.ev = "step" /\ r.op = "connect" ->
-         IF ObsVer(r) = live THEN Connect
-         ELSE /\ conns' = Append(conns, [born |-> identityVersion, ver |-> ObsVer(r), cfg |-> ObsVer(r), alive |-> TRUE, cc |-> RightCert])
-              /\ UNCHANGED <<identityVersion, live, wantCA, liveCA>>
-    [] r.ev = "rstep" /\ r.op = "connect" /\ r.cc \in ClientCerts ->
-         IF ObsVer(r) = live \/ ~Admitted(r.cc) THEN ConnectAs(r.cc)
-         ELSE /\ conns' = Append(conns, [born |-> identityVersion, ver |-> ObsVer(r), cfg |-> ObsVer(r), alive |-> TRUE, cc |-> r.cc])
-              /\ UNCHANGED <<identityVersion, live, wantCA, liveCA>>
+         /\ wantGen' = 0 /\ liveGen' = 0 /\ dueGen' = 0 /\ botched' = 0
+         /\ UNCHANGED cvars
+    [] r.ev = "cscript" ->
+         /\ rootsGen' = 0 /\ rootsRead' = {} /\ cseen' = <<>>
+         /\ UNCHANGED svars
+    [] r.ev \in {"step", "rstep"} /\ r.op = "connect" /\ r.cc \in Presentable ->
+         IF ObsVer(r) = live \/ ~Admitted(r.cc) THEN ConnectAs(r.cc) ELSE Pinned(r)
     [] r.ev \in {"step", "rstep"} /\ r.op = "reload" -> Reload
+    [] r.ev \in {"step", "rstep"} /\ r.op = "rotate" /\ wantCA = "configured" -> Rotate
+    [] r.ev = "rstep" /\ r.op = "botch" -> BotchedReload
     [] r.ev \in {"step", "rstep"} /\ r.op = "use" /\ r.conn \in DOMAIN conns -> Use(r.conn)
+    [] r.ev = "cstep" /\ r.op = "connect" /\ r.srv \in CPresentable -> CConnect(r.srv)
+    [] r.ev = "cstep" /\ r.op = "rotate" -> CRotate
     [] OTHER -> UNCHANGED mvars
 
 Match(r) ==
@@ -265,13 +389,21 @@ Match(r) ==
     [] r.ev = "step"   -> MatchStep(r)
     [] r.ev = "rscript" -> r.mtls \in BOOLEAN
     [] r.ev = "rstep"  -> MatchRStep(r)
+    [] r.ev = "cscript" -> TRUE
+    [] r.ev = "cstep"  -> MatchCStep(r)
     [] OTHER -> FALSE
 
 Sig(r) ==
   CASE r.ev = "case" -> SigCase(r)
     [] r.ev = "step" -> SigStep(r)
     [] r.ev = "rstep" -> SigRStep(r)
+    [] r.ev = "cstep" -> SigCStep(r)
     [] OTHER -> "other:malformed_line"
+
+ConnectView(r, o) ==
+  [outcome |-> HandshakeOutcome(r.cc), observed |-> o, serverClientCA |-> wantCA, reloadsSoFar |-> identityVersion,
+   caGenerationAtPath |-> wantGen, caGenerationAtLastReload |-> dueGen, failedReloadsSoFar |-> botched,
+   identity |-> live, cn |-> IdentCN(live), conn |-> (IF Admitted(r.cc) THEN Len(conns) + 1 ELSE 0)]
 
 ExpectView(r) ==
   CASE r.ev = "case" ->
@@ -279,16 +411,21 @@ ExpectView(r) ==
          THEN [outcome |-> Expected(CaseOf(r)), observed |-> Obs(r), serverAsksForCert |-> ServerAsksForCert(CaseOf(r)),
                serverCN |-> ServerCN(CaseOf(r))]
          ELSE [error |-> "malformed line"]
-    [] r.ev = "step" /\ r.op = "connect" -> [handshake |-> "ok", identity |-> live, cn |-> IdentCN(live), serverSeesClientCert |-> r.mtls]
+    [] r.ev = "step" /\ r.op = "connect" /\ r.cc \in Presentable -> ConnectView(r, Obs(r))
     [] r.ev = "step" /\ r.op = "reload" -> [res |-> "ok", to |-> identityVersion + 1]
+    [] r.ev \in {"step", "rstep"} /\ r.op = "rotate" -> [res |-> "ok", to |-> wantGen + 1, serverClientCA |-> wantCA]
     [] r.ev = "step" /\ r.op = "use" /\ r.conn \in DOMAIN conns ->
          [roundtrip |-> "ok", identity |-> conns[r.conn].ver, cn |-> IdentCN(conns[r.conn].ver)]
-    [] r.ev = "rstep" /\ r.op = "connect" /\ r.cc \in ClientCerts ->
-         [outcome |-> HandshakeOutcome(r.cc), observed |-> RObs(r), serverClientCA |-> wantCA, reloadsSoFar |-> identityVersion,
-          identity |-> live, cn |-> IdentCN(live), conn |-> (IF Admitted(r.cc) THEN Len(conns) + 1 ELSE 0)]
-    [] r.ev = "rstep" /\ r.op = "reload" -> [res |-> "ok", to |-> identityVersion + 1, serial |-> IdentSerial(identityVersion + 1)]
+    [] r.ev = "rstep" /\ r.op = "connect" /\ r.cc \in Presentable -> ConnectView(r, RObs(r))
+    [] r.ev = "rstep" /\ r.op = "reload" ->
+         [res |-> "ok", to |-> identityVersion + 1, serial |-> IdentSerial(identityVersion + 1), failedReloadsSoFar |-> botched,
+          probe |-> (IF wantCA = "configured" THEN GenName(wantGen) ELSE "none"), probeOutcome |-> "ok"]
+    [] r.ev = "rstep" /\ r.op = "botch" -> [res |-> "signalled", n |-> botched + 1, identityServedAfterwards |-> live]
     [] r.ev = "rstep" /\ r.op = "use" /\ r.conn \in DOMAIN conns ->
          [roundtrip |-> "ok", identity |-> conns[r.conn].ver, cn |-> IdentCN(conns[r.conn].ver)]
+    [] r.ev = "cstep" /\ r.op = "connect" /\ r.srv \in CPresentable ->
+         [outcome |-> CConnectOutcome(r.srv), observed |-> Obs(r), rootsGenerationAtPath |-> rootsGen]
+    [] r.ev = "cstep" /\ r.op = "rotate" -> [res |-> "ok", to |-> rootsGen + 1]
     [] OTHER -> [error |-> "malformed line"]
 
 (* ------------------------------ the walk over the log ------------------------------ *)
@@ -305,7 +442,7 @@ Step ==
   /\ l' = l + 1
 
 Next == Step
-Spec == Init /\ [][Next]_<<l, identityVersion, live, conns, wantCA, liveCA>>
+Spec == Init /\ [][Next]_<<l, mvars>>
 
 Track == IF TLCGet(1) < l THEN TLCSet(1, l) ELSE TRUE
 
